@@ -402,18 +402,36 @@ func init() {
 
 	// beacon containers: seeded from the repository's genuine vectors (value -> bytes -> value,
 	// and every mutant that still decodes must re-encode identically)
-	seeded := func(name string, newFn func() any, seeds func() [][]byte) {
-		c := ztypCodec(name, newFn, func() []codecVal { return nil }, nil)
+	// and, the vectors being of one fork only, from synthetic values of every fork arm and of
+	// ranges mixing forks (c14_beacon_forks.go). Values are compared field by field (digest, every
+	// field of the fork's container), so that a value decoded with another fork's type differs.
+	seeded := func(name string, newFn func() any, seeds func() [][]byte, vals func() []codecVal) {
+		c := ztypCodec(name, newFn, vals, nil)
 		c.Seeds = seeds
 		c.ShortLen = 2
-		c.Canon = func(v any) string { b, _ := zEnc(v); return string(b) }
+		c.SynthIdentityOnly, c.MutCap = true, 60000
+		c.DescClass = true
 		codecs = append(codecs, c)
 	}
-	seeded("types/beacon.ForkedLightClientBootstrap", func() any { return &tbeacon.ForkedLightClientBootstrap{} }, beaconSeeds("light_client_bootstrap.json", "content_value"))
-	seeded("types/beacon.ForkedLightClientFinalityUpdate", func() any { return &tbeacon.ForkedLightClientFinalityUpdate{} }, beaconSeeds("light_client_finality_update.json", "content_value"))
-	seeded("types/beacon.ForkedLightClientOptimisticUpdate", func() any { return &tbeacon.ForkedLightClientOptimisticUpdate{} }, beaconSeeds("light_client_optimistic_update.json", "content_value"))
-	seeded("types/beacon.LightClientUpdateRange", func() any { r := tbeacon.LightClientUpdateRange{}; return &r }, beaconSeeds("light_client_updates_by_range.json", "content_value"))
-	seeded("types/beacon.ForkedHistoricalSummariesWithProof", func() any { return &tbeacon.ForkedHistoricalSummariesWithProof{} }, beaconSeeds("historical_summaries_with_proof.yaml", "content_value"))
+	rangeSeeds := beaconSeeds("light_client_updates_by_range.json", "content_value")
+	seeded("types/beacon.ForkedLightClientBootstrap", func() any { return &tbeacon.ForkedLightClientBootstrap{} }, beaconSeeds("light_client_bootstrap.json", "content_value"),
+		c14ForkedVals("types/beacon.ForkedLightClientBootstrap"))
+	seeded("types/beacon.ForkedLightClientFinalityUpdate", func() any { return &tbeacon.ForkedLightClientFinalityUpdate{} }, beaconSeeds("light_client_finality_update.json", "content_value"),
+		c14ForkedVals("types/beacon.ForkedLightClientFinalityUpdate"))
+	seeded("types/beacon.ForkedLightClientOptimisticUpdate", func() any { return &tbeacon.ForkedLightClientOptimisticUpdate{} }, beaconSeeds("light_client_optimistic_update.json", "content_value"),
+		c14ForkedVals("types/beacon.ForkedLightClientOptimisticUpdate"))
+	// the element of the range on its own (the second entry point of the update decoder); its
+	// genuine encodings are the elements of the genuine ranges
+	seeded("types/beacon.ForkedLightClientUpdate", func() any { return &tbeacon.ForkedLightClientUpdate{} }, func() [][]byte {
+		var out [][]byte
+		for _, rg := range rangeSeeds() {
+			out = append(out, c14RangeElems(rg)...)
+		}
+		return out
+	}, c14ForkedVals("types/beacon.ForkedLightClientUpdate"))
+	seeded("types/beacon.LightClientUpdateRange", func() any { r := tbeacon.LightClientUpdateRange{}; return &r }, rangeSeeds, c14RangeVals)
+	seeded("types/beacon.ForkedHistoricalSummariesWithProof", func() any { return &tbeacon.ForkedHistoricalSummariesWithProof{} }, beaconSeeds("historical_summaries_with_proof.yaml", "content_value"),
+		c14SummariesVals)
 }
 
 func sortStrings(s []string) {
